@@ -30,6 +30,46 @@ import (
 // with an 8-byte channel.MockOp). AppNone and AppPayment carry no data.
 const AppMock = 2
 
+// AppBlob is the app kind whose states carry an opaque byte string of
+// arbitrary length (0..65535) as data: the long byte fields of the native
+// codec (perunio.ByteSlice) that addresses, signatures and MockOp data, all
+// of fixed small size in the sim backend, never produce.
+const AppBlob = 3
+
+// BlobData is the data of the blob app.
+type BlobData []byte
+
+// MarshalBinary returns the bytes.
+func (d *BlobData) MarshalBinary() ([]byte, error) { return append([]byte{}, *d...), nil }
+
+// UnmarshalBinary copies the bytes.
+func (d *BlobData) UnmarshalBinary(b []byte) error { *d = append(BlobData{}, b...); return nil }
+
+// Clone returns a deep copy.
+func (d *BlobData) Clone() channel.Data { c := append(BlobData{}, *d...); return &c }
+
+type blobApp struct{ id channel.AppID }
+
+func (a *blobApp) Def() channel.AppID                              { return a.id }
+func (a *blobApp) NewData() channel.Data                           { return &BlobData{} }
+func (a *blobApp) ValidInit(*channel.Params, *channel.State) error { return nil }
+func (a *blobApp) ValidTransition(*channel.Params, *channel.State, *channel.State, channel.Index) error {
+	return nil
+}
+
+var blobApps []channel.App
+
+// BlobApp returns the k-th blob app.
+func BlobApp(k int) channel.App {
+	mockMu.Lock()
+	defer mockMu.Unlock()
+	for len(blobApps) <= k {
+		rng := kernel.NewRand(kernel.Derive(0xb10b, len(blobApps)))
+		blobApps = append(blobApps, &blobApp{simchannel.AppID{Address: simwallet.NewRandomAddress(rng)}})
+	}
+	return blobApps[k]
+}
+
 // MsgTypes lists the 17 message types of the wire protocol in type-byte order.
 var MsgTypes = []wire.Type{
 	wire.Ping, wire.Pong, wire.Shutdown, wire.AuthResponse,
@@ -71,6 +111,7 @@ func RegisterApps() {
 		for k := 0; k < NumApps; k++ {
 			channel.RegisterApp(PaymentApp(k))
 			channel.RegisterApp(MockApp(k))
+			channel.RegisterApp(BlobApp(k))
 		}
 	})
 }
@@ -82,6 +123,8 @@ func AppOf(kind, variant int) channel.App {
 		return PaymentApp(variant % NumApps)
 	case AppMock:
 		return MockApp(variant % NumApps)
+	case AppBlob:
+		return BlobApp(variant % NumApps)
 	}
 	return channel.NoApp()
 }
@@ -90,6 +133,10 @@ func AppOf(kind, variant int) channel.App {
 func DataOf(r *kernel.Rand, kind int) channel.Data {
 	if kind == AppMock {
 		return channel.NewMockOp(channel.MockOp(r.Uint64()))
+	}
+	if kind == AppBlob {
+		d := BlobData(r.Bytes(r.Weighted([]int{3, 1}) * r.Range(0, 400)))
+		return &d
 	}
 	return channel.NoData()
 }
@@ -129,7 +176,7 @@ func (s ValShape) Clamp() ValShape {
 	s.Parts = cl(s.Parts, 2, 64)
 	s.Assets = cl(s.Assets, 1, 64)
 	s.Locked = cl(s.Locked, 0, 16)
-	s.App = cl(s.App, AppNone, AppMock)
+	s.App = cl(s.App, AppNone, AppBlob)
 	s.Flags &= 15
 	s.Text = cl(s.Text, 0, 40000)
 	return s
@@ -145,7 +192,7 @@ func RandValShape(r *kernel.Rand, long bool) ValShape {
 		Parts:  2 + r.Weighted([]int{6, 3, 2, 1}),
 		Assets: 1 + r.Weighted([]int{8, 4, 2, 2, 1, 1, 1, 1}),
 		Big:    r.Bool(0.25),
-		App:    r.Weighted([]int{4, 3, 3}),
+		App:    r.Weighted([]int{4, 3, 3, 2}),
 		Flags:  r.Intn(16),
 		Text:   r.Weighted([]int{1, 6, 3, 1}) * r.Range(0, 40),
 	}
@@ -209,6 +256,13 @@ func WireAddrs(r *kernel.Rand, n int, sparse bool) []map[wallet.BackendID]wire.A
 			continue
 		}
 		out[i] = WireAddr(r.Uint64() % 64)
+		// a client that is reachable under several backends has one wire
+		// address per backend id
+		if r.Bool(0.25) {
+			for b, n := 1, r.Range(1, 3); b <= n; b++ {
+				out[i][wallet.BackendID(b)] = WireAddr(r.Uint64() % 64)[channel.TestBackendID]
+			}
+		}
 	}
 	return out
 }
@@ -313,6 +367,14 @@ func RandStateFor(r *kernel.Rand, p *channel.Params, s ValShape) *channel.State 
 		st.Data = channel.NoData()
 	case s.App == AppMock:
 		st.Data = DataOf(r, AppMock)
+	case s.App == AppBlob:
+		// the data length follows the shape's text length (long for long messages)
+		n := s.Text
+		if n > 65535 {
+			n = 65535
+		}
+		d := BlobData(r.Bytes(n))
+		st.Data = &d
 	default:
 		st.Data = p.App.NewData()
 	}
